@@ -705,12 +705,18 @@ func c16(e *Env) {
 		n := w.Nodes[c.Choose("stallwho", len(w.Nodes))]
 		conns := n.LiveConns()
 		n.Stalled = true
+		if c.Choose("stall-stops-reading", 2) == 1 {
+			// the node does not even read from its sockets any more: after a few hundred bytes the
+			// proxy's writes to it block - closing such a connection must still work
+			n.StallHard(64 + c.Choose("stall-sndbuf", 1000))
+			e.Res.Stats["probe.c16.stalled_node_stops_reading"]++
+		}
 		t0 := w.Now()
 		w.Stat("fault.stall-node")
 		limit := cfg.IdleTimeout + cfg.Heartbeat + cfg.ConnectTimeout + 2*time.Second
 		allClosed := func() bool {
 			for _, bc := range conns {
-				if !bc.Closed {
+				if !bc.Closed && !(bc.Link != nil && bc.Link.SUTClosed()) { // (a node that does not read does not see the close: the proxy having closed its side is what counts)
 					return false
 				}
 			}
@@ -742,7 +748,7 @@ func c16(e *Env) {
 		if !ok {
 			var open []string
 			for _, bc := range conns {
-				if !bc.Closed {
+				if !bc.Closed && !(bc.Link != nil && bc.Link.SUTClosed()) {
 					open = append(open, bc.String())
 				}
 			}
